@@ -1,0 +1,10 @@
+//go:build verif
+
+package runtime
+
+import "github.com/siyul-park/uniflow/pkg/symbol"
+
+// VerifTable exposes the runtime's symbol table read-only to the verification harness.
+func (r *Runtime) VerifTable() *symbol.Table {
+	return r.symbolTable
+}
